@@ -190,10 +190,14 @@ def run_group(group, repo="/repo", extra_args=None, keep=False, seed=None):
         res["status"] = "undecided"
         tool = [d["message"] for d in res["diags"] if d["kind"] == "tool"]
         res["reason"] = "verus rejected the extracted text: " + ("; ".join(tool)[:600] if tool else p.stderr[-600:])
+    elif "semantic" in kinds:
+        # a completed query produced a counterexample; a resource-limit message next to it
+        # (same or another function) does not take that verdict back
+        res["status"] = "failed"
     elif "rlimit" in kinds:
         res["status"] = "undecided"
         res["reason"] = "solver resource limit"
-    elif "semantic" in kinds or (js and not js["verification-results"].get("success")):
+    elif js and not js["verification-results"].get("success"):
         res["status"] = "failed"
     else:
         res["status"] = "ok"
